@@ -12,7 +12,7 @@ use digest::Digest;
 use skein_hash::{Skein1024, Skein256, Skein512};
 use std::panic::{catch_unwind, AssertUnwindSafe};
 
-const NOUTS: [usize; 18] = [1, 7, 8, 20, 31, 32, 33, 48, 63, 64, 65, 100, 127, 128, 129, 200, 256, 300];
+const NOUTS: [usize; 21] = [1, 7, 8, 16, 20, 24, 28, 31, 32, 33, 48, 63, 64, 65, 100, 127, 128, 129, 200, 256, 300];
 const SIZES: [usize; 3] = [256, 512, 1024];
 const T1_MSG: u64 = 48 << 56;
 const T1_FIRST: u64 = 1 << 62;
@@ -34,6 +34,9 @@ struct Input {
     msg: Vec<u8>,
     split: usize,
     stream: &'static str,
+    /// Some((t.0, t.1, pos, digest)): the outcome was already obtained from the object that reached the state by
+    /// hashing (the tail given in one update call: split = 0)
+    same_object: Option<(u64, u64, usize, Vec<u8>)>,
 }
 
 struct Outcome {
@@ -112,8 +115,9 @@ fn run_typed<H: Hk>(inp: &Input) -> Outcome {
     }
 }
 
-/// really stream `n` patterned bytes into a fresh hasher, read the state back through the hook
-fn real_stream<H: Hk>(n: u64) -> Hook {
+/// really stream `n` patterned bytes into a fresh hasher, read the state back through the hook, then continue
+/// the SAME object with `tail` and finalise it
+fn real_stream<H: Hk>(n: u64, tail: &[u8]) -> (Hook, (u64, u64, usize, Vec<u8>)) {
     let mut h = H::default();
     let chunk: Vec<u8> = (0..(1usize << 20)).map(|i| (i as u32).wrapping_mul(2654435761).to_le_bytes()[3] ^ (i as u8)).collect();
     let sizes = [1usize << 20, 65537, 4096, 63, 1, 64, 129, 1 << 20, 31, 32, 33, 128];
@@ -125,7 +129,9 @@ fn real_stream<H: Hk>(n: u64) -> Hook {
         k += 1;
     }
     let (x, t, b, p) = h.get();
-    Hook { x, t0: t.0, t1: t.1, buffered: b[..p].to_vec() }
+    Digest::update(&mut h, tail);
+    let (_, t2, _, p2) = h.get();
+    (Hook { x, t0: t.0, t1: t.1, buffered: b[..p].to_vec() }, (t2.0, t2.1, p2, h.finalize().to_vec()))
 }
 
 macro_rules! by_nout {
@@ -134,7 +140,10 @@ macro_rules! by_nout {
             1 => run_typed::<$ty<U1>>($inp),
             7 => run_typed::<$ty<U7>>($inp),
             8 => run_typed::<$ty<U8>>($inp),
+            16 => run_typed::<$ty<U16>>($inp),
             20 => run_typed::<$ty<U20>>($inp),
+            24 => run_typed::<$ty<U24>>($inp),
+            28 => run_typed::<$ty<U28>>($inp),
             31 => run_typed::<$ty<U31>>($inp),
             32 => run_typed::<$ty<U32>>($inp),
             33 => run_typed::<$ty<U33>>($inp),
@@ -156,6 +165,20 @@ macro_rules! by_nout {
             n => panic!("output size {} not instantiated", n),
         }
     };
+}
+
+/// More than 65535 output blocks: Skein256<2^21 + 32> returns 65537 blocks of 32 bytes. That is too long for the
+/// model inside coqc, so it is checked on the implementation (and only its first 8256 bytes reach Coq, see main).
+/// Runs on a thread with a large stack: the 2 MiB output is passed by value several times.
+type HugeN = Sum<U2097152, U32>;
+const HUGE_N: usize = 2_097_152 + 32;
+fn run_huge(inp: &Input) -> Option<Outcome> {
+    let inp = inp.clone();
+    std::thread::Builder::new()
+        .stack_size(128 << 20)
+        .spawn(move || run_typed::<Skein256<HugeN>>(&inp))
+        .ok()
+        .and_then(|h| h.join().ok())
 }
 
 fn run_input(inp: &Input) -> Outcome {
@@ -203,7 +226,7 @@ fn split_for(rng: &mut Rng, len: usize, nb: usize) -> usize {
     s.min(len)
 }
 
-fn gen_inputs(rng: &mut Rng, thorough: bool, streams: &str) -> Vec<Input> {
+fn gen_inputs(rng: &mut Rng, thorough: bool, streams: &str, seed: u64, big_output: bool) -> Vec<Input> {
     let mut v = Vec::new();
     let all = streams == "all";
     if all {
@@ -221,10 +244,10 @@ fn gen_inputs(rng: &mut Rng, thorough: bool, streams: &str) -> Vec<Input> {
                 }
                 let reps = if thorough { 3 } else { 1 };
                 for r in 0..reps {
-                    let nout = NOUTS[(len * 5 + si * 7 + r * 11) % 18];
+                    let nout = NOUTS[(len * 5 + si * 7 + r * 11) % NOUTS.len()];
                     let msg = content(rng, len + si + r, len);
                     let split = split_for(rng, len, nb);
-                    v.push(Input { size, nout, hook: None, msg, split, stream: "residues" });
+                    v.push(Input { size, nout, hook: None, msg, split, stream: "residues", same_object: None });
                 }
             }
         }
@@ -242,7 +265,7 @@ fn gen_inputs(rng: &mut Rng, thorough: bool, streams: &str) -> Vec<Input> {
                 for (k, &len) in lens.iter().enumerate() {
                     let msg = content(rng, k + nout, len);
                     let split = split_for(rng, len, nb);
-                    v.push(Input { size, nout, hook: None, msg, split, stream: "per_output_size" });
+                    v.push(Input { size, nout, hook: None, msg, split, stream: "per_output_size", same_object: None });
                 }
             }
         }
@@ -258,21 +281,34 @@ fn gen_inputs(rng: &mut Rng, thorough: bool, streams: &str) -> Vec<Input> {
                 nb * (4 + rng.below(28) as usize) + [0usize, 0, 1, nb - 1][k % 4] * (k % 2)
                     + rng.below(2) as usize * rng.below(nb as u64) as usize
             };
-            let nout = NOUTS[(k * 7 + 3) % 18];
+            let nout = NOUTS[(k * 7 + 3) % NOUTS.len()];
             let msg = content(rng, k, len);
             let split = split_for(rng, len, nb);
-            v.push(Input { size, nout, hook: None, msg, split, stream: "long" });
+            v.push(Input { size, nout, hook: None, msg, split, stream: "long", same_object: None });
         }
     }
-    if all {
-        // F: output longer than 256 output blocks (counter-mode output with a counter above 255)
-        let big: &[(usize, usize)] = if thorough { &[(256, 8256), (512, 16448), (1024, 32896), (256, 16448)] } else { &[(256, 8256), (512, 16448)] };
+    {
+        // F: output longer than 256 output blocks (counter-mode output with a counter above 255): all three state
+        //    sizes in the full stream; one state size (rotating with the seed) in the hook / smoke streams, so
+        //    that the release profile and the no_unroll build see such an output too
+        let all3: [(usize, usize); 3] = [(256, 8256), (512, 16448), (1024, 32896)];
+        let big: Vec<(usize, usize)> = if all && thorough {
+            vec![(256, 8256), (512, 16448), (1024, 32896), (256, 16448)]
+        } else if all {
+            all3.to_vec()
+        } else if !big_output {
+            Vec::new()
+        } else if streams == "smoke" {
+            vec![all3[0]] // the cheapest one (the rolled-loop model is slow inside coqc)
+        } else {
+            vec![all3[(seed % 3) as usize]]
+        };
         for (k, &(size, nout)) in big.iter().enumerate() {
             let nb = size / 8;
             let len = [3usize, nb + 1, 0, 2 * nb][k % 4];
             let msg = content(rng, k, len);
             let split = split_for(rng, len, nb);
-            v.push(Input { size, nout, hook: None, msg, split, stream: "big_output" });
+            v.push(Input { size, nout, hook: None, msg, split, stream: "big_output", same_object: None });
         }
     }
     if !all {
@@ -285,7 +321,7 @@ fn gen_inputs(rng: &mut Rng, thorough: bool, streams: &str) -> Vec<Input> {
                 let nout = [33usize, 129, 300, 7, 64, 200][(k + si) % 6];
                 let msg = content(rng, k + si, len);
                 let split = split_for(rng, len, nb);
-                v.push(Input { size, nout, hook: None, msg, split, stream: "smoke" });
+                v.push(Input { size, nout, hook: None, msg, split, stream: "smoke", same_object: None });
             }
         }
     }
@@ -310,19 +346,20 @@ fn gen_inputs(rng: &mut Rng, thorough: bool, streams: &str) -> Vec<Input> {
                 let tails = [0usize, 1, nb - nbuf, nb, nb + 1, 2 * nb + 1, 3 * nb];
                 for (ti, &tail) in tails.iter().enumerate() {
                     k += 1;
-                    // quick tier: a third of the product, rotating
-                    if !thorough && (k % 3 != 0) {
+                    // quick tier: a third of the product, rotating with the seed (every (t0, nbuf, tail) meets
+                    // every state size at some seed)
+                    if !thorough && ((k + seed as usize) % 3 != 0) {
                         continue;
                     }
                     // streams = smoke: a ninth of the product
-                    if streams == "smoke" && (k % 9 != 0) {
+                    if streams == "smoke" && ((k + seed as usize) % 9 != 0) {
                         continue;
                     }
-                    let nout = if k % 4 == 0 { NOUTS[k % 18] } else { [8usize, 32, 33, 64][k % 4] };
+                    let nout = if k % 4 == 0 { NOUTS[k % NOUTS.len()] } else { [8usize, 32, 33, 64][k % 4] };
                     let hook = Hook { x: rng.bytes(nb), t0, t1, buffered: content(rng, k, nbuf) };
                     let msg = content(rng, k + ti, tail);
                     let split = split_for(rng, tail, nb);
-                    v.push(Input { size, nout, hook: Some(hook), msg, split, stream: "hook" });
+                    v.push(Input { size, nout, hook: Some(hook), msg, split, stream: "hook", same_object: None });
                 }
             }
         }
@@ -333,7 +370,7 @@ fn gen_inputs(rng: &mut Rng, thorough: bool, streams: &str) -> Vec<Input> {
 fn main() {
     let argv: Vec<String> = std::env::args().collect();
     if argv.len() < 2 || argv[1] != "skein" {
-        eprintln!("usage: h_skein skein [--seed N --shards N --out DIR --tier quick|thorough --streams all|hook|smoke --real N --runner run_c05]");
+        eprintln!("usage: h_skein skein [--seed N --shards N --out DIR --tier quick|thorough --streams all|hook|smoke --real N --big-output 0|1 --runner run_c05]");
         std::process::exit(2);
     }
     let a = Args::parse(&argv[2..]);
@@ -348,21 +385,35 @@ fn main() {
     std::panic::set_hook(Box::new(|_| {}));
 
     let mut rng = Rng::new(seed ^ 0x5ce1_4a5b);
-    let mut inputs = gen_inputs(&mut rng, thorough, &streams);
+    // --big-output 1: an output of more than 255 output blocks also in the hook / smoke streams (C05 asks for it
+    // in its release configurations; C17 does not)
+    let big_output = a.u64("big-output", 0) != 0;
+    let mut inputs = gen_inputs(&mut rng, thorough, &streams, seed, big_output);
     // C17: the byte position really driven to just below 2^32 bytes (4 GiB streamed), the tail
     // then crosses it; the position read back must be the bytes compressed so far
     let real = a.u64("real", 0);
     let mut direct: Vec<String> = Vec::new();
     let mut real_bytes = 0u64;
     for k in 0..real {
-        let size = SIZES[(k as usize + 1) % 3];
+        // thorough tier: which state size is streamed first rotates with the seed; quick tier: Skein-512 (the fastest:
+        // 4 GiB take ~15 s, ~23 s for Skein-1024), as C17's quick budget is tight
+        let size = SIZES[(k as usize + 1 + if thorough { seed as usize } else { 0 }) % 3];
         let nb = (size / 8) as u64;
         let below = [1u64, nb, 2 * nb + 5, nb - 1][k as usize % 4];
         let n = (1u64 << 32) - below;
-        let hook = match size {
-            256 => real_stream::<Skein256<U32>>(n),
-            512 => real_stream::<Skein512<U64>>(n),
-            _ => real_stream::<Skein1024<U128>>(n),
+        let tail = below as usize + [0usize, 1, nb as usize, 5][k as usize % 4];
+        let msg = content(&mut rng, k as usize, tail);
+        let r = catch_unwind(AssertUnwindSafe(|| match size {
+            256 => real_stream::<Skein256<U32>>(n, &msg),
+            512 => real_stream::<Skein512<U64>>(n, &msg),
+            _ => real_stream::<Skein1024<U128>>(n, &msg),
+        }));
+        let (hook, same) = match r {
+            Ok(x) => x,
+            Err(_) => {
+                direct.push(format!("{{\"what\":\"panic while really streaming\",\"size\":{},\"streamed\":{}}}", size, n));
+                continue;
+            }
         };
         real_bytes += n;
         let want_t0 = ((n + nb - 1) / nb - 1) * nb; // lazy buffering: the last block stays pending
@@ -372,10 +423,52 @@ fn main() {
                 size, n, hook.t0, hook.t1, hook.buffered.len()
             ));
         }
-        let tail = below as usize + [0usize, 1, nb as usize, 5][k as usize % 4];
-        let msg = content(&mut rng, k as usize, tail);
         let split = split_for(&mut rng, tail, nb as usize);
-        inputs.push(Input { size, nout: [32usize, 64, 128][(k as usize + 1) % 3], hook: Some(hook), msg, split, stream: "real_stream" });
+        let nout = size / 8; // the types streamed are Skein256<U32>, Skein512<U64>, Skein1024<U128>
+        // the tail crosses the boundary twice: in a fresh object the read-back state is entered into (two update
+        // calls), and in the streamed object itself (one call; a private field the hook does not expose would make
+        // the two differ)
+        inputs.push(Input { size, nout, hook: Some(hook.clone()), msg: msg.clone(), split, stream: "real_stream", same_object: None });
+        inputs.push(Input { size, nout, hook: Some(hook), msg, split: 0, stream: "real_stream_same_object", same_object: Some(same) });
+    }
+    let (mut len_checked, mut bad_len, mut beyond_domain) = (0usize, 0usize, 0usize);
+    // C05: an output of 65537 output blocks (counter above 65535). From one entered state (the hook overrides the
+    // chaining value, so the output size in the configuration block no longer matters) Skein256<8256> and
+    // Skein256<2^21+32> must agree on the first 8256 bytes; the former is an ordinary case (compared with model and
+    // spec inside coqc); in the latter all 65537 blocks must be pairwise distinct (a counter truncated to 16 or
+    // 8 bits, or one that saturates, repeats a block)
+    let mut huge_blocks = 0usize;
+    if big_output && streams != "smoke" {
+        let hook = Hook { x: rng.bytes(32), t0: 0, t1: T1_MSG | T1_FIRST, buffered: content(&mut rng, 3, 7) };
+        let msg = content(&mut rng, 0, 40);
+        let small = Input { size: 256, nout: 8256, hook: Some(hook.clone()), msg: msg.clone(), split: 9, stream: "big_output_from_state", same_object: None };
+        let huge = Input { size: 256, nout: HUGE_N, hook: Some(hook), msg, split: 9, stream: "huge_output", same_object: None };
+        let a = run_input(&small);
+        match run_huge(&huge) {
+            Some(b) if !b.panicked && !a.panicked => {
+                let mut seen = std::collections::HashSet::new();
+                let mut repeated: Option<(usize, usize)> = None;
+                let mut first_at: std::collections::HashMap<&[u8], usize> = Default::default();
+                for (i, blk) in b.digest.chunks(32).enumerate() {
+                    if !seen.insert(blk) && repeated.is_none() {
+                        repeated = Some((first_at[blk], i));
+                    }
+                    first_at.entry(blk).or_insert(i);
+                }
+                huge_blocks = (b.digest.len() + 31) / 32;
+                let prefix_ok = b.digest.len() >= 8256 && b.digest[..8256] == a.digest[..];
+                if b.digest.len() != HUGE_N || !prefix_ok || repeated.is_some() {
+                    direct.push(format!(
+                        "{{\"what\":\"Skein256 output of 65537 blocks (N = 2^21+32) from an entered state: wrong length, or its first 8256 bytes differ from the N = 8256 output of the same state, or two output blocks are equal\",\"x\":{},\"t0\":0,\"t1\":\"{:x}\",\"buffered\":{},\"msg\":{},\"split\":9,\"digest_len\":{},\"prefix_equal\":{},\"equal_blocks\":{}}}",
+                        jstr(&hex(&small.hook.as_ref().unwrap().x)), T1_MSG | T1_FIRST, jstr(&hex(&small.hook.as_ref().unwrap().buffered)), jstr(&hex(&small.msg)),
+                        b.digest.len(), prefix_ok,
+                        match repeated { Some((i, j)) => format!("[{},{}]", i, j), None => "null".to_string() }
+                    ));
+                }
+            }
+            _ => direct.push("{\"what\":\"Skein256 with an output of 65537 blocks (N = 2^21+32) panicked or could not be run\"}".to_string()),
+        }
+        inputs.push(small);
     }
     let mut coq = Vec::new();
     let mut js = Vec::new();
@@ -387,7 +480,33 @@ fn main() {
     let mut max_len = 0usize;
     let mut blocks_total = 0usize;
     for (i, inp) in inputs.iter().enumerate() {
-        let o = run_input(inp);
+        let o = match &inp.same_object {
+            Some((t0, t1, pos, d)) => Outcome { panicked: false, at0: *t0, at1: *t1, apos: *pos, digest: d.clone() },
+            None => run_input(inp),
+        };
+        // the Coq runner cuts the digest literal to N bytes: the length actually returned is checked here
+        if !o.panicked {
+            len_checked += 1;
+            if o.digest.len() != inp.nout {
+                bad_len += 1;
+                if direct.len() < 12 {
+                    direct.push(format!(
+                        "{{\"what\":\"the digest returned does not have the N bytes of the type\",\"size\":{},\"nout\":{},\"stream\":{},\"msg\":{},\"split\":{},\"digest_len\":{},\"digest\":{}}}",
+                        inp.size, inp.nout, jstr(inp.stream), jstr(&hex(&inp.msg)), inp.split, o.digest.len(), jstr(&hex(&o.digest))
+                    ));
+                }
+            }
+        }
+        // the property speaks about messages below 2^64 bytes (the u64 position word): entered states whose
+        // total lies at or beyond are pinned to the behaviour as written and tagged, so that a later repair there
+        // (a carry into t.1) can be told from a violation
+        let domain = match &inp.hook {
+            Some(h) if (h.t0 as u128) + (h.buffered.len() as u128) + (inp.msg.len() as u128) >= 1u128 << 64 => {
+                beyond_domain += 1;
+                "beyond the property's domain: t.0 + buffered + message >= 2^64 bytes (behaviour as written is pinned: overflow checks panic, otherwise t.0 wraps)"
+            }
+            _ => "within",
+        };
         *by_stream.entry(inp.stream).or_insert(0) += 1;
         by_size[SIZES.iter().position(|&s| s == inp.size).unwrap()] += 1;
         panics += o.panicked as usize;
@@ -420,12 +539,14 @@ fn main() {
             nlit(&o.digest)
         ));
         let j = format!(
-            "{{\"size\":{},\"nout\":{},\"profile\":{},\"no_unroll\":{},\"stream\":{},\"hook\":{},\"msg_len\":{},\"msg\":{},\"split\":{},\"outcome\":{},\"after_updates\":{{\"t0\":{},\"t1\":{},\"pos\":{}}},\"digest\":{}}}",
+            "{{\"size\":{},\"nout\":{},\"profile\":{},\"no_unroll\":{},\"stream\":{},\"domain\":{},\"digest_len\":{},\"hook\":{},\"msg_len\":{},\"msg\":{},\"split\":{},\"outcome\":{},\"after_updates\":{{\"t0\":{},\"t1\":{},\"pos\":{}}},\"digest\":{}}}",
             inp.size,
             inp.nout,
             jstr(if debug { "debug" } else { "release" }),
             nu,
             jstr(inp.stream),
+            jstr(domain),
+            o.digest.len(),
             match &inp.hook {
                 None => "null".to_string(),
                 Some(h) => format!(
@@ -463,7 +584,7 @@ fn main() {
     std::fs::write(format!("{}/cases.json", out), format!("[{}]", js.join(",\n"))).unwrap();
     let streams_js: Vec<String> = by_stream.iter().map(|(k, v)| format!("{}:{}", jstr(k), v)).collect();
     println!(
-        "{{\"evaluations\":{},\"distinct_nontrivial\":{},\"profile\":{},\"no_unroll\":{},\"by_size\":{{\"256\":{},\"512\":{},\"1024\":{}}},\"by_stream\":{{{}}},\"output_sizes\":{:?},\"panics\":{},\"max_msg_len\":{},\"message_blocks_total\":{},\"really_streamed_bytes\":{},\"direct_failures\":[{}],\"samples\":[{}]}}",
+        "{{\"evaluations\":{},\"distinct_nontrivial\":{},\"profile\":{},\"no_unroll\":{},\"by_size\":{{\"256\":{},\"512\":{},\"1024\":{}}},\"by_stream\":{{{}}},\"output_sizes\":{:?},\"panics\":{},\"max_msg_len\":{},\"message_blocks_total\":{},\"really_streamed_bytes\":{},\"digest_lengths_checked\":{},\"digests_of_wrong_length\":{},\"beyond_domain_cases_tagged\":{},\"hook_selection_rotation\":{},\"output_blocks_of_the_huge_output_checked_on_the_implementation\":{},\"direct_failures\":[{}],\"samples\":[{}]}}",
         inputs.len(),
         distinct.len(),
         jstr(if debug { "debug" } else { "release" }),
@@ -477,6 +598,11 @@ fn main() {
         max_len,
         blocks_total,
         real_bytes,
+        len_checked,
+        bad_len,
+        beyond_domain,
+        seed % 9,
+        huge_blocks,
         direct.join(","),
         samples.join(",")
     );
